@@ -100,7 +100,11 @@ func callbackMonitor(c *Ctx) []Violation {
 				}
 			}
 			if f.Decl != "" {
-				if want := "verif/universe." + f.Decl; e.CBName != want {
+				want := "verif/universe." + f.Decl
+				if f.LocPC != "" {
+					want = "verif/universe." + f.LocPC // the function dig names is the one at the given location
+				}
+				if e.CBName != want {
 					bad("callback-wrong-name", "callback of %s reports Name %q, want %q", e.Fn, e.CBName, want)
 				}
 			}
@@ -137,7 +141,7 @@ func c20Units(tier string) []Unit {
 		faulty []string
 	}
 	fams := []fam{
-		{"chain", alpha{scopes: []int{0, 1}, ctors: []*uFunc{u.D("DAe", cb), u.D("DAe"), u.D("DBe", cb), u.D("DBe"), u.D("DCe", cb)}, export: !q,
+		{"chain", alpha{scopes: []int{0, 1}, ctors: []*uFunc{u.D("DAe", cb), u.D("DAe"), u.D("DBe", cb), u.D("DBe"), u.D("DCe", cb), u.D("DAe", cb, u.LocationOf("DB"))}, export: !q,
 			decos: []*uFunc{u.D("DdAe", cb), u.D("DdAe")}, invokes: []*uFunc{iA, iB, iC}}, []string{"DAe", "DBe", "DCe", "DdAe"}},
 		{"groups", alpha{scopes: []int{0, 1}, ctors: []*uFunc{u.D("DG1e", cb), u.D("DG2", cb), u.D("DCge", cb), u.D("DCge")},
 			decos: []*uFunc{u.D("DdGe", cb)}, invokes: []*uFunc{iG, iC, iGs}}, []string{"DG1e", "DCge", "DdGe"}},
